@@ -93,7 +93,7 @@ End C19.
    evaluator extended with an import table (the five library files of gen/StdLib.v, linked) - a copy of sem/Sem.v's fixpoints
    in which only the import case differs, conservative over it. ---- *)
 From Ucg Require Import std.Sem_Import std.Sem_Import_Lemmas std.StdSpec_Imp std.Imp_Lists std.Imp_Slice std.Imp_Tuples
-     std.Imp_Functional std.Imp_Strings.
+     std.Imp_Functional std.Imp_Strings std.Imp_ParseInt std.Imp_Schema std.Imp_SplitOn.
 
 Section C19_imports.
   Variable fo : float_ops.
@@ -165,6 +165,40 @@ Section C19_imports.
                                  (b "right", VStr fo (concat (skipn (Z.to_nat idx) (utf8_chars s))))]).
   Proof. exact (std_strings_split_at fo). Qed.
 
+  (* split_on: the pieces between leftmost, non-overlapping occurrences of the separator (UTF-8 characters) ... *)
+  Theorem split_on_is_split : forall E st ord s sep,
+      fits (Z.of_nat (List.length s)) -> fits (Z.of_nat (List.length sep)) ->
+      exists f, eval_imp fo std_imports f [] (ctx_gen fo E st ord [(b "arg2", VStr fo sep); (b "arg", VStr fo s)]) split_on_call
+                = Ok (ref_split_on fo sep s).
+  Proof. exact (std_strings_split_on fo). Qed.
+
+  (* parse_int: the value of the leading digits, NULL when there are none *)
+  Theorem parse_int_reads_leading_digits : forall E st ord s z,
+      fits (Imp_Strings.N s) -> leading_digits (utf8_chars s) <> [] -> parse_int (leading_digits (utf8_chars s)) = Some z ->
+      exists f, eval_imp fo std_imports f [] (ctx_gen fo E st ord [(b "arg", VStr fo s)]) parse_int_unwrap = Ok (VInt fo z).
+  Proof. exact (std_strings_parse_int fo). Qed.
+
+  Theorem parse_int_without_digits_is_null : forall E st ord s,
+      fits (Imp_Strings.N s) -> leading_digits (utf8_chars s) = [] ->
+      exists f, eval_imp fo std_imports f [] (ctx_gen fo E st ord [(b "arg", VStr fo s)]) parse_int_unwrap = Ok (VNull fo).
+  Proof. exact (std_strings_parse_int_none fo). Qed.
+
+  (* schema.shaped / any / all compute their reference predicates for ALL values (partial matching at every tuple depth) *)
+  Theorem shaped_is_reference : forall E st ord v sh p n, vdepth fo v < n ->
+      exists f, eval_imp fo std_imports f [] (ctx_gen fo E st ord [(b "arg3", VBool fo p); (b "arg2", sh); (b "arg1", v)]) shaped_call
+                = Ok (VBool fo (ref_shaped fo n p v sh)).
+  Proof. exact (std_schema_shaped fo). Qed.
+
+  Theorem any_is_reference : forall E st ord v ts p n, vdepth fo v < n ->
+      exists f, eval_imp fo std_imports f [] (ctx_gen fo E st ord [(b "arg3", VBool fo p); (b "arg2", VList fo ts); (b "arg1", v)]) any_call
+                = Ok (VBool fo (ref_any fo n p v ts)).
+  Proof. exact (std_schema_any fo). Qed.
+
+  Theorem all_is_reference : forall E st ord v ts n, vdepth fo v < n ->
+      exists f, eval_imp fo std_imports f [] (ctx_gen fo E st ord [(b "arg2", VList fo ts); (b "arg1", v)]) all_call
+                = Ok (VBool fo (ref_all fo n v ts)).
+  Proof. exact (std_schema_all fo). Qed.
+
   (* finding (documented, both builds fail or misbehave): the third guard of slice lets end = len through *)
   Theorem slice_end_equal_length_refuted : forall E ord,
       let l := [VInt fo 0; VInt fo 1; VInt fo 2; VInt fo 3] in
@@ -173,3 +207,8 @@ Section C19_imports.
       = Ok (VList fo [VInt fo 0; VInt fo 1; VInt fo 2; VInt fo 3; VNull fo]).
   Proof. exact (std_slice_end_is_len_refuted fo). Qed.
 End C19_imports.
+
+(* ... and joining them with the separator gives the string back *)
+Theorem split_on_then_join_is_identity : forall s sep : bytes, sep <> [] ->
+    join sep (split_go (S (List.length s)) sep (List.length (utf8_chars sep)) [] [] (utf8_chars s)) = s.
+Proof. exact std_split_on_join. Qed.
